@@ -228,6 +228,14 @@ func implHevcSps(b []byte) (r implVideo) {
 	vm := codec.VideoMeta{Codec: "H265", Vps: []byte{0x40, 1, 0x0c}, Sps: append([]byte{}, b...), Pps: []byte{0x44, 1, 0xc0}}
 	r.ready = hevc.MetadataIsReady(&vm)
 	r.mw, r.mh, r.mfixed, r.mfps = vm.Width, vm.Height, vm.FixedFrameRate, vm.FrameRate
+	noVps := codec.VideoMeta{Codec: "H265", Sps: append([]byte{}, b...), Pps: []byte{0x44}}
+	noPps := codec.VideoMeta{Codec: "H265", Sps: append([]byte{}, b...), Vps: []byte{0x40}}
+	noSps := codec.VideoMeta{Codec: "H265", Vps: []byte{0x40}, Pps: []byte{0x44}}
+	known := codec.VideoMeta{Codec: "H265", Vps: []byte{0x40}, Sps: append([]byte{}, b...), Pps: []byte{0x44}, Width: 7, Height: 9}
+	if hevc.MetadataIsReady(&noVps) || hevc.MetadataIsReady(&noPps) || hevc.MetadataIsReady(&noSps) || noVps.Width != 0 || noPps.Width != 0 ||
+		(len(b) > 0 && (!hevc.MetadataIsReady(&known) || known.Width != 7 || known.Height != 9)) {
+		r.outcome = "guards-broken"
+	}
 	return
 }
 
@@ -290,6 +298,13 @@ func evalHevcSps(c *Ctx, k caseT, out string) {
 		}
 	} else {
 		c.Find(Finding{Kind: "oracle", Class: "hevc-panic-escapes", Case: k.line, Impl: r.outcome, Spec: "error or result"})
+	}
+	if c.Rng.Intn(4) == 0 && r.outcome != "escaped-panic" {
+		d := ""
+		if modelOutcome == "ok" {
+			d = m["dims"]
+		}
+		checkSdp(c, k, "h265", data, d, m["spec"])
 	}
 	if k.kind == "hevcspsenc" && k.wf {
 		spec := m["spec"]
